@@ -23,6 +23,10 @@ for ID in $IDS; do
         echo "SKIP  $ID $(echo $P | sed "s|$V/||")  (patch does not apply: $(head -1 $S/apply.err))"; rm -rf $S; continue
       fi
     fi
+    # a must-fail change has to compile: a check "catching" code that does not build proves nothing
+    if ! (cd $S/repo && GOFLAGS=-mod=mod GOPROXY=off go build ./... >$S/build.err 2>&1); then
+      echo "INVALID $ID $(echo $P | sed "s|$V/||")  (does not build: $(grep -v '^#' $S/build.err | head -1))"; fail=$((fail+1)); rm -rf $S; continue
+    fi
     OUT=$(VERIF_REPO=$S/repo VERIF_ROOT=$S/verif $V/bin/gocv check $ID 2>&1); RC=$?
     NV=$(echo "$OUT" | grep -c "^VIOLATION")
     OBL=$(echo "$OUT" | grep "failed obligation" | head -2 | sed 's/^ *failed obligation: //' | tr '\n' ';')
